@@ -47,6 +47,16 @@ func HarnessC07HistoryIndependence() {
 	for name, bi := range builtins.Builtins() {
 		globals[name] = bi
 	}
+	// a module the host configured as a global: importable in every invocation
+	globals["cfgmod"] = object.NewBuiltinsModule("cfgmod", map[string]object.Object{
+		"twice": object.NewBuiltin("twice", func(ctx context.Context, args ...object.Object) object.Object {
+			if len(args) != 1 {
+				return object.Errorf("twice: one argument")
+			}
+			v, _ := asInt(args[0])
+			return object.NewInt(2 * v)
+		}),
+	})
 	names := make([]string, 0, len(globals))
 	for n := range globals {
 		names = append(names, n)
@@ -86,12 +96,29 @@ func HarnessC07HistoryIndependence() {
 		overObj, oerr := machine.Get("over")
 		verifrt.Assert(oerr == nil, "global-defined-before-the-failure-is-available")
 		if oerr == nil {
+			spBefore := machine.sp
 			_, cerr := machine.Call(ctx, overObj.(*object.Function), []object.Object{object.NewInt(0)})
 			verifrt.Assert(cerr != nil, "overflowing-call-fails")
+			verifrt.Assert(machine.sp == spBefore, "failed-call-leaves-the-operand-stack-as-it-was")
 			verifrt.Assert(!machine.running, "not-running-after-failed-call")
 		}
 	}
-	switch verifrt.Choose(3) {
+	switch verifrt.Choose(4) {
+	case 3:
+		// a module configured as a global is importable whatever came before
+		code3 := c07Compile("import cfgmod\ncfgmod.twice(b)", names)
+		verifrt.Assert(code3 != nil, "setup-compiles")
+		if code3 == nil {
+			return
+		}
+		err := machine.RunCode(ctx, code3)
+		verifrt.Reach("runcode-import")
+		verifrt.Assert(err == nil, "runcode-importing-a-configured-module-after-history-succeeds")
+		if err == nil {
+			tos, ok := machine.TOS()
+			iv, isInt := asInt(tos)
+			verifrt.Assert(ok && isInt && iv == 2*b, "runcode-import-after-history-value")
+		}
 	case 2:
 		// a deeply recursive call needs the whole frame/stack capacity
 		deepObj, derr := machine.Get("deep")
